@@ -70,7 +70,8 @@ def rp(rel):
 
 def root_arg(o):
     """the root folder as the user may spell it: absolute (default), with a trailing separator, with a trailing /., as '.' from
-    inside, or relative to its parent (the last two need a working directory, see cwd_for)"""
+    inside, or relative to its parent (the last two need a working directory, see cwd_for); 'symlink': absolute, but through a
+    symbolic link to the root folder (run_cmd creates the link and points every path of the command line through it)"""
     sp = o.get("spell") or ("slash" if o.get("slash") else None)
     base = rp(o.get("root", "") or "")
     if sp == "slash":
@@ -179,7 +180,19 @@ def run_cmd(ctx, tree, op, now, cwd=None, keep=False, mtimes=None, root=None, ob
     if cwd is None:
         cwd = cwd_for(op, root)
     name, args = to_args(op)
-    args = expand_args(args, root, **(subst or {}))
+    argroot = root
+    if len(op) > 1 and isinstance(op[1], dict) and op[1].get("spell") == "symlink":
+        # every path of the command line (root, -sf, -ii) reaches the tree through a symbolic link to the root folder
+        # (the link has the folder's own name - manifests are named after the folder as it is addressed - and lives in ln/)
+        lndir = os.path.join(os.path.dirname(root), "ln")
+        argroot = os.path.join(lndir, os.path.basename(root))
+        if os.path.islink(argroot):
+            os.remove(argroot)
+        elif os.path.lexists(lndir):
+            sub.rm(lndir)
+        os.makedirs(lndir, exist_ok=True)
+        os.symlink(root, argroot)
+    args = expand_args(args, argroot, **(subst or {}))
     if not observe:
         res = ctx.run(name, args, now=now, cwd=cwd, order=order, tz=tz)
         return res, sub.readback(root)
